@@ -20,7 +20,7 @@ SUITES = {
 
 # kind of mismatch / event -> property it is a violation of (None = the suite's own property)
 KIND_PROP = {"parse-panic": "C03", "panic": "C02", "tag": "C01", "rejected": None, "outcome": None,
-             "value": None, "log": None, "watch": None, "twins": None}
+             "value": None, "log": None, "watch": None, "twins": None, "consttwin": None}
 EVENT_PROP = {"ret": "C01", "arg": "C01", "result": "C01", "alloc": "C01", "final": "C01",
               "write": "C13", "unbound": "C02"}
 
